@@ -52,6 +52,8 @@ def run(ctx):
     rule_upper_bound(F, R)
     from . import exhaust
     exhaust.report(F, R, "C09.sound", ctx.tier)
+    from . import parsecat
+    parsecat.report_exhaustive(F, R, "C09.text")
 
 
 def rule_when(F, R):
